@@ -259,6 +259,8 @@ func Write(path string, offset int64, newVersion Version, opts Params, index []I
 	path = finalPath + ".tmp"
 	if err := os.Remove(path); err != nil && !errors.Is(err, os.ErrNotExist) {
 		return fmt.Errorf("write index remove stale temp: %w", err)
+	} else if err == nil {
+		vhook.FSEvent("remove", path, "", 0, 0)
 	}
 
 	w, err := OpenWriter(path, offset, newVersion, opts)
@@ -304,6 +306,7 @@ func Write(path string, offset int64, newVersion Version, opts Params, index []I
 	if err := os.Rename(path, finalPath); err != nil {
 		return fmt.Errorf("write index rename: %w", err)
 	}
+	vhook.FSEvent("rename", path, finalPath, 0, 0)
 	return nil
 }
 
